@@ -23,4 +23,4 @@ def run(ctx):
 
 
 def replay(ctx, rec):
-    ctx.notes.append("re-run ./check C04 with the same VERIF_SEED to reproduce")
+    imgs.replay(ctx, rec, "C04")
